@@ -1,30 +1,31 @@
 (* Conversions between OCaml values and the extracted Coq datatypes. *)
-open Model
+open BinNums
+open Datatypes
 
 let rec pos_of_int (i : int) : positive =
-  if i = 1 then XH
-  else if i land 1 = 0 then XO (pos_of_int (i lsr 1))
-  else XI (pos_of_int (i lsr 1))
+  if i = 1 then Coq_xH
+  else if i land 1 = 0 then Coq_xO (pos_of_int (i lsr 1))
+  else Coq_xI (pos_of_int (i lsr 1))
 
-let n_of_int (i : int) : n = if i = 0 then N0 else if i < 0 then failwith "n_of_int" else Npos (pos_of_int i)
+let n_of_int (i : int) : coq_N = if i = 0 then N0 else if i < 0 then failwith "n_of_int" else Npos (pos_of_int i)
 
 let rec int_of_pos = function
-  | XH -> 1
-  | XO p -> 2 * int_of_pos p
-  | XI p -> 2 * int_of_pos p + 1
+  | Coq_xH -> 1
+  | Coq_xO p -> 2 * int_of_pos p
+  | Coq_xI p -> 2 * int_of_pos p + 1
 
 let int_of_n = function N0 -> 0 | Npos p -> int_of_pos p
 
-let z_of_int (i : int) : z = if i = 0 then Z0 else if i > 0 then Zpos (pos_of_int i) else Zneg (pos_of_int (-i))
+let z_of_int (i : int) : coq_Z = if i = 0 then Z0 else if i > 0 then Zpos (pos_of_int i) else Zneg (pos_of_int (-i))
 let int_of_z = function Z0 -> 0 | Zpos p -> int_of_pos p | Zneg p -> - (int_of_pos p)
 
 let rec nat_of_int (i : int) : nat = if i <= 0 then O else S (nat_of_int (i - 1))
 let rec int_of_nat = function O -> 0 | S n -> 1 + int_of_nat n
 
 (* arbitrary-size N from a decimal string (for the 128-bit packed tuples) *)
-let n_of_decimal (s : string) : n =
+let n_of_decimal (s : string) : coq_N =
   (* repeated division by 2 on the decimal string *)
-  let digits = Array.init (String.length s) (fun i -> Char.code s.[i] - 48) in
+  let digits = Array.init (Stdlib.String.length s) (fun i -> Char.code s.[i] - 48) in
   let is_zero () = Array.for_all (fun d -> d = 0) digits in
   let bits = ref [] in
   while not (is_zero ()) do
@@ -40,28 +41,28 @@ let n_of_decimal (s : string) : n =
   match !bits with
   | [] -> N0
   | 1 :: rest ->
-    Npos (List.fold_left (fun acc b -> if b = 1 then XI acc else XO acc) XH rest)
+    Npos (Stdlib.List.fold_left (fun acc b -> if b = 1 then Coq_xI acc else Coq_xO acc) Coq_xH rest)
   | _ -> failwith "n_of_decimal"
 
-let decimal_of_n (x : n) : string =
+let decimal_of_n (x : coq_N) : string =
   (* build decimal by doubling *)
-  let rec bits_of_pos = function XH -> [1] | XO p -> 0 :: bits_of_pos p | XI p -> 1 :: bits_of_pos p in
+  let rec bits_of_pos = function Coq_xH -> [1] | Coq_xO p -> 0 :: bits_of_pos p | Coq_xI p -> 1 :: bits_of_pos p in
   match x with
   | N0 -> "0"
   | Npos p ->
-    let bits = List.rev (bits_of_pos p) in (* msb first *)
+    let bits = Stdlib.List.rev (bits_of_pos p) in (* msb first *)
     let digits = ref [0] in (* little-endian decimal digits *)
-    List.iter (fun b ->
+    Stdlib.List.iter (fun b ->
         let carry = ref b in
-        digits := List.map (fun d -> let v = d * 2 + !carry in carry := v / 10; v mod 10) !digits;
+        digits := Stdlib.List.map (fun d -> let v = d * 2 + !carry in carry := v / 10; v mod 10) !digits;
         if !carry > 0 then digits := !digits @ [!carry]) bits;
-    String.concat "" (List.rev_map string_of_int !digits)
+    Stdlib.String.concat "" (Stdlib.List.rev_map string_of_int !digits)
 
 open Sexp
 let int_of_sx = function A a -> int_of_string a | _ -> failwith "int expected"
-let ints_of_sx = function L l -> List.map int_of_sx l | _ -> failwith "list expected"
-let ns_of_sx x = List.map n_of_int (ints_of_sx x)
+let ints_of_sx = function L l -> Stdlib.List.map int_of_sx l | _ -> failwith "list expected"
+let ns_of_sx x = Stdlib.List.map n_of_int (ints_of_sx x)
 let str_of_sx = function S s -> s | A a -> a | _ -> failwith "string expected"
 let list_of_sx = function L l -> l | _ -> failwith "list expected"
-let chars_of_string (s : string) : char list = List.init (String.length s) (String.get s)
-let string_of_chars (l : char list) : string = String.concat "" (List.map (String.make 1) l)
+let chars_of_string (s : string) : char list = Stdlib.List.init (Stdlib.String.length s) (Stdlib.String.get s)
+let string_of_chars (l : char list) : string = Stdlib.String.concat "" (Stdlib.List.map (Stdlib.String.make 1) l)
